@@ -266,12 +266,12 @@ func c12Less(a, b string) bool {
 	return false
 }
 
-func c12Key(s string) [3]*bigInt {
+func c12Key(s string) [3]*vfBigInt {
 	f := strings.Fields(s)
-	k := [3]*bigInt{newBig(f[0]), newBig("0"), newBig("0")}
+	k := [3]*vfBigInt{vfNewBig(f[0]), vfNewBig("0"), vfNewBig("0")}
 	if len(f) >= 5 && f[1] == "D" {
-		k[1] = newBig(f[3]).addOne()
-		k[2] = newBig(f[4])
+		k[1] = vfNewBig(f[3]).addOne()
+		k[2] = vfNewBig(f[4])
 	}
 	return k
 }
@@ -410,7 +410,7 @@ func c12Live(t *testing.T, r *vfh.Rand, out *vfh.Out) {
 	a.OnInconsistentRA = func(ours, theirs *ndp.RouterAdvertisement) { hooks++ }
 
 	// 0..2 transmissions under earlier states
-	conn := newVfConn()
+	conn := vfNewVfConn()
 	for k := r.Intn(3); k > 0; k-- {
 		addrs = pick()
 		now = now.Add(time.Duration(r.Range(0, int64(40*time.Minute))))
@@ -496,10 +496,10 @@ func c12Live(t *testing.T, r *vfh.Rand, out *vfh.Out) {
 // increments of the counter — none is shed.
 //
 //	vburst n | hooks counted
-func runVerifyBurst(t *testing.T, out *vfh.Out, n int) {
+func vfRunVerifyBurst(t *testing.T, out *vfh.Out, n int) {
 	out.Pending(fmt.Sprintf("runVerifyBurst n=%d", n))
 	synctest.Test(t, func(t *testing.T) {
-		v := newVfAdv(vfAdvConfig(200*time.Second, 600*time.Second, false, 1800*time.Second), false, nil)
+		v := vfNewVfAdv(vfAdvConfig(200*time.Second, 600*time.Second, false, 1800*time.Second), false, nil)
 		release := make(chan struct{})
 		var mu sync.Mutex
 		hooks := 0
@@ -565,7 +565,7 @@ func c12RoundTrip(ra *ndp.RouterAdvertisement) (*ndp.RouterAdvertisement, bool) 
 
 func verifC12(t *testing.T, r *vfh.Rand, out *vfh.Out) {
 	for _, n := range []int{1, 2, 16, 17, 18, 25, 40} {
-		runVerifyBurst(t, out, n)
+		vfRunVerifyBurst(t, out, n)
 	}
 	for k := vfh.N(600, 15000); k > 0; k-- {
 		c12Live(t, r, out)
